@@ -747,10 +747,10 @@ theorem C17_insertion_blocks_shifted {A F W : List Tok} {R : Tok → Tok → Pro
     `next_block` cuts from `u a sp --c ⏎ x` are, one by one and up to the positions of the tokens
     behind the insertion, the blocks of `u a ⏎ x`, the one containing the line having the whitespace
     token and the line-comment token inserted behind the tokens of `a`.
-    MISSING for the other two transformations at this level: the same composition (the ingredients
-    `C17_trailing_spaces_tokens`, `C17_block_comment_tokens`, `C17_insertion_blocks_shifted` are
-    proved; only the gluing as done here for the comment is not written out), and an unterminated
-    last line (no line feed behind `a`). -/
+    (`C17_trailing_spaces_blocks` is the same for trailing blanks.)  MISSING at this level: the same
+    composition for the block comment (the ingredients `C17_block_comment_tokens` and
+    `C17_insertion_blocks_shifted` are proved; the gluing is not written out), and an unterminated last
+    line (no line feed behind `a`). -/
 theorem C17_trailing_comment_blocks (cs : CharSpec) (hs : TrailSpec cs) (u a sp c x : List Char) (L : List (List Tok))
     (hu : lex cs u = L.flatten) (hL : ∀ l ∈ L, IsLine l)
     (hne : sp ≠ []) (hsp : ∀ y ∈ sp, y = ' ') (hc : '\n' ∉ c) (ha : a ≠ [])
@@ -935,5 +935,34 @@ example : LRel (ItemIns (fun c => c = ' ')) (C17_exDocBlock.map (·.1)) (C17_exD
       (by intro t ht; simp only [List.mem_cons, List.not_mem_nil, or_false] at ht; rcases ht with rfl | rfl <;> rfl)
       (by intro t ht; simp only [List.mem_cons, List.not_mem_nil, or_false] at ht; rcases ht with rfl | rfl <;> decide)
       (by intro s hs; cases hs))
+
+/-- **Trailing blanks in the source: the same blocks** (every input; needs additionally that LF is
+    not lexer white space): as `C17_trailing_comment_blocks`, the inserted filler being the one
+    whitespace token `sp`. -/
+theorem C17_trailing_spaces_blocks (cs : CharSpec) (hs : TrailSpec cs) (hlf : cs.ws '\n' = false)
+    (u a sp x : List Char) (L : List (List Tok))
+    (hu : lex cs u = L.flatten) (hL : ∀ l ∈ L, IsLine l)
+    (hne : sp ≠ []) (hsp : ∀ y ∈ sp, y = ' ') (ha : a ≠ [])
+    (hnl : ∀ t ∈ lexFrom cs (utf8Len u) a, (t.kind != .newline) = true)
+    (hend : EndOK cs (some ' ') (lexFrom cs (utf8Len u) a)) (hend' : EndOK cs (some '\n') (lexFrom cs (utf8Len u) a)) :
+    ∃ F nl, F = [(⟨.ws, sp, utf8Len u + utf8Len a⟩ : Tok)] ∧
+      nl = (⟨.newline, ['\n'], utf8Len u + utf8Len a⟩ : Tok) ∧
+      LRel (fun b' b => ∃ m, LRel SameKT b' m ∧ InsB (lexFrom cs (utf8Len u) a) F [nl] m b)
+        (blocksOf (lex cs (u ++ (a ++ (sp ++ '\n' :: x)))))
+        (blocksOf (lex cs (u ++ (a ++ '\n' :: x)))) :=
+  trail_spaces_blocks_source cs hs hlf u a sp x L hu hL hne hsp ha hnl hend hend'
+
+/-- the second side condition of the two theorems above in readable form: under `CrlfSpec` (CR, LF
+    neither lexer white space nor word characters) the line feed behind `a` is a token boundary
+    unless `a` ends inside a block comment, in a lone backslash (it escapes the line feed) or in a
+    lone carriage return (it joins the line feed) -/
+theorem C17_clean_line_end_lf (cs : CharSpec) (hcs : CrlfSpec cs) (o : Nat) (a : List Char)
+    (h : CleanEndLF (lexFrom cs o a)) : EndOK cs (some '\n') (lexFrom cs o a) := trail_endOK_lf cs hcs o a h
+
+example : CleanEndLF [⟨.word, ['a', 'b'], 0⟩] := by
+  intro l hl
+  simp only [List.getLast?_singleton, Option.some.injEq] at hl
+  subst hl
+  decide
 
 end Cook
